@@ -3,7 +3,7 @@
     Models: Model/Exec.v (the unified executor of redis.call), Model/Lua.v (script layer),
     Model/RunLua.v (script cache, EVALSHA), Model/Strings.v / Model/Lists.v (direct handlers).
     Lua itself is not modelled: scripts are the terms of the DSL of Model/Lua.v. *)
-From Ferrous Require Import Base.Bytes Generated Model.Resp Model.Types Model.Utf8 Model.Strings Model.Lists
+From Ferrous Require Import Base.Bytes Generated Model.Resp Model.Types Model.Utf8 Model.Strings Model.Lists Model.Streams
   Model.Exec Model.Lua Model.Server Model.RunLua Proofs.ExecFacts Proofs.LuaFacts.
 Open Scope Z_scope.
 
@@ -94,6 +94,16 @@ Proof. vm_compute. split; reflexivity. Qed.
 Example c12_parity_arity_refuted :
   both 0 d_k [bs "DBSIZE"; bs "x"] = ((FInt 1, d_k), Some (r_err, d_k)).
 Proof. vm_compute. reflexivity. Qed.
+(** stream commands (modelled in the executor, not yet in the parity catalogue): XTRIM k MAXLEN ~ 1 is an
+    error through the executor and a trim when sent directly *)
+Definition d_x : db :=
+  snd (h_xadd (snd (h_xadd empty_db (bulks [bs "XADD"; bs "x"; bs "1-1"; bs "f"; bs "v"]) None))
+              (bulks [bs "XADD"; bs "x"; bs "2-1"; bs "f"; bs "v"]) None).
+Example c12_stream_options_refuted :
+  fst (fst (both 0 d_x [bs "XTRIM"; bs "x"; bs "MAXLEN"; bs "~"; bs "1"])) = r_err /\
+  option_map fst (snd (both 0 d_x [bs "XTRIM"; bs "x"; bs "MAXLEN"; bs "~"; bs "1"])) = Some (FInt 1).
+Proof. vm_compute. split; reflexivity. Qed.
+
 (** non-vacuity: the hypotheses of [c12_parity] hold for an ordinary call *)
 Example c12_parity_applies :
   forallb utf8_valid [bs "set"; bs "k"; bs "v"; bs "EX"; bs "10"] = true /\
